@@ -344,9 +344,19 @@ func translate(held lockSet, site ssa.CallInstruction, callee *ssa.Function) loc
 	cc := site.Common()
 	var actuals []ssa.Value
 	var formals []ssa.Value
+	// a captured variable is bound as the address of its cell; when the cell holds one value (cellValue), the closure's
+	// *fv is that value, so the binding is translated as the value itself
+	unspill := func(b ssa.Value, mc *ssa.MakeClosure) ssa.Value {
+		if a, ok := b.(*ssa.Alloc); ok {
+			if sv := cellValue(a, mc); sv != nil {
+				return sv
+			}
+		}
+		return b
+	}
 	if mc, ok := cc.Value.(*ssa.MakeClosure); ok && mc.Fn == ssa.Value(callee) {
 		for i, b := range mc.Bindings {
-			actuals = append(actuals, b)
+			actuals = append(actuals, unspill(b, mc))
 			formals = append(formals, callee.FreeVars[i])
 		}
 	}
@@ -362,7 +372,7 @@ func translate(held lockSet, site ssa.CallInstruction, callee *ssa.Function) loc
 		for _, r := range *ssa.Value(callee).Referrers() {
 			if mc, ok := r.(*ssa.MakeClosure); ok {
 				for i, b := range mc.Bindings {
-					actuals = append(actuals, b)
+					actuals = append(actuals, unspill(b, mc))
 					formals = append(formals, callee.FreeVars[i])
 				}
 			}
@@ -402,7 +412,7 @@ func translate(held lockSet, site ssa.CallInstruction, callee *ssa.Function) loc
 				for k, a := range args2 {
 					ra, ca := fieldChain(a)
 					for j, b := range mc.Bindings {
-						rb, cb := fieldChain(b)
+						rb, cb := fieldChain(unspill(b, mc))
 						if ra == rb && len(cb) == 0 && ra != nil {
 							bridges = append(bridges, bridge{h.Params[k], callee.FreeVars[j], ca})
 						}
